@@ -100,6 +100,36 @@ fn side_strategy(v: vmodel::Variant) -> BoxedStrategy<String> {
     prop_oneof![5 => valid, 3 => gens::utf8_text_strategy(v)].boxed()
 }
 
+/// Independent operands, and RELATED operands (the same string on both sides, or a
+/// case / one-character variant of it): shortcuts keyed on operand equality live there.
+fn pair_strategy(v: vmodel::Variant) -> BoxedStrategy<(String, String)> {
+    let independent = (side_strategy(v), side_strategy(v));
+    let related = (side_strategy(v), 0u8..6, any::<u16>(), any::<bool>()).prop_map(|(l, k, pos, swap)| {
+        let r = match k {
+            0 => l.clone(),
+            1 => l.to_ascii_lowercase(),
+            2 => l.to_ascii_uppercase(),
+            3 => transform(&l, 1),
+            4 => transform(&l, 2),
+            _ => {
+                // one character changed (keeps the length for ASCII strings)
+                let mut c: Vec<char> = l.chars().collect();
+                if !c.is_empty() {
+                    let i = pos as usize % c.len();
+                    c[i] = if c[i] == '0' { '1' } else { '0' };
+                }
+                c.into_iter().collect()
+            }
+        };
+        if swap {
+            (r, l)
+        } else {
+            (l, r)
+        }
+    });
+    prop_oneof![3 => independent, 2 => related].boxed()
+}
+
 fn run_pairs(ctx: &Ctx) -> CheckResult {
     if !ctx.api.caps().easy {
         ctx.skipped("pairs: easy functions not compiled");
@@ -112,7 +142,7 @@ fn run_pairs(ctx: &Ctx) -> CheckResult {
             "pairs",
             &format!("pairs/{}", v.name),
             cases,
-            (side_strategy(v), side_strategy(v)),
+            pair_strategy(v),
             |(l, r): &(String, String)| json!({"variant": v.name, "l": l, "r": r}),
             |(l, r): &(String, String), st: &CaseStats| {
                 st.sample(|| json!({"check": "pairs", "variant": v.name, "l": l, "r": r}));
